@@ -45,3 +45,88 @@ MUST_COVER = [e + s for e in ENTRY_POINTS for s in ("", ":nt", ":ok")] + [
 
 # vf/fuzz.py turns a zero count of any of these into exit 2 (generator starved); keys are "<target>:<class>", required per build
 FUZZ_MUST_COVER = [t.name + ":" + c for t in FUZZ_TARGETS for c in MUST_COVER]
+
+
+# ------------------------------------------------------------------------------------------------------------------------------
+# E1 supplement: declared lengths beyond 2^32.  libFuzzer inputs are at most 9000 bytes, so a length parameter that is narrowed
+# to 32 bits somewhere inside the library (size_t -> unsigned int) is invisible to the target above: "valid artifact followed
+# by exactly k * 2^32 bytes" would then be taken for the artifact itself.  The trailing bytes live in an anonymous, lazily
+# committed mapping that neither side touches (every entry point below rejects on its exact-length rule without reading the tail),
+# so the case costs address space only.  Oracle: the call returns 0 / the reject value and fires no callback.
+def _huge_case_strategy():
+    from hypothesis import strategies as st
+    return st.fixed_dictionaries({
+        "ep": st.sampled_from(["pubkey33", "pubkey65", "der", "whitelist", "surjection", "halfagg", "rangeproof_info_only_header"]),
+        "k": st.sampled_from([1, 1, 2, 3]), "delta": st.sampled_from([0, 0, 0, 1, -1]), "seed": st.integers(1, 1 << 30)})
+
+
+def _run_huge(env, case):
+    import ctypes
+    import mmap
+    from ctypes import c_size_t, byref
+    from pyref import ec
+    from vf.core import Inconclusive
+    from vf.lib import buf
+    lib = env.lib
+    d = lib.dll
+    sk = ec.i2b(case["seed"])
+    r, pk = lib.pubkey_create(sk)
+    env.require(r == 1, "pubkey_create failed")
+    ep = case["ep"]
+    if ep == "pubkey33":
+        art = lib.pubkey_serialize(pk, True)
+    elif ep == "pubkey65":
+        art = lib.pubkey_serialize(pk, False)
+    elif ep == "der":
+        r, sig = lib.ecdsa_sign(ec.sha256(sk), sk)
+        art = lib.sig_serialize_der(sig)[1]
+    elif ep == "whitelist":
+        art = bytes([1]) + ec.sha256(sk) + ec.i2b(7)
+    elif ep == "surjection":
+        art = bytes([1, 0, 1]) + ec.sha256(sk) + ec.i2b(7)
+    elif ep == "halfagg":
+        art = bytes(32)                                   # the aggregate of zero signatures
+    else:
+        art = bytes([0x40, 0x00]) + bytes(80)             # a structurally plausible range-proof header
+    total = len(art) + case["k"] * (1 << 32) + case["delta"]
+    try:
+        mm = mmap.mmap(-1, total + 4096, flags=mmap.MAP_PRIVATE | mmap.MAP_ANONYMOUS | getattr(mmap, "MAP_NORESERVE", 0))
+    except (OSError, ValueError, OverflowError) as e:
+        raise Inconclusive("cannot map %d bytes of address space: %s" % (total, e))
+    lib.reset()
+    try:
+        mm[:len(art)] = art
+        pb = ctypes.c_void_p(ctypes.addressof(ctypes.c_char.from_buffer(mm)))
+        what = "%s followed by %d*2^32%+d bytes (declared length %d)" % (ep, case["k"], case["delta"], total)
+        if ep in ("pubkey33", "pubkey65"):
+            env.require(d.secp256k1_ec_pubkey_parse(lib.ctx, buf(64), pb, c_size_t(total)) == 0, "ec_pubkey_parse accepted " + what)
+        elif ep == "der":
+            env.require(d.secp256k1_ecdsa_signature_parse_der(lib.ctx, buf(64), pb, c_size_t(total)) == 0, "signature_parse_der accepted " + what)
+        elif ep == "whitelist":
+            env.require(d.secp256k1_whitelist_signature_parse(lib.ctx, buf(8 + 32 * 256), pb, c_size_t(total)) == 0, "whitelist_signature_parse accepted " + what)
+        elif ep == "surjection":
+            env.require(d.secp256k1_surjectionproof_parse(lib.ctx, buf(8 + 8 + 32 + 32 * 257 + 64), pb, c_size_t(total)) == 0, "surjectionproof_parse accepted " + what)
+        elif ep == "halfagg":
+            env.require(d.secp256k1_schnorrsig_aggverify(lib.ctx, None, None, c_size_t(0), pb, c_size_t(total)) == 0, "schnorrsig_aggverify accepted " + what)
+        else:
+            from ctypes import c_int, c_uint64
+            e1, m1, mn, mx = c_int(0), c_int(0), c_uint64(0), c_uint64(0)
+            got = d.secp256k1_rangeproof_info(lib.ctx, byref(e1), byref(m1), byref(mn), byref(mx), pb, c_size_t(total))
+            env.require(got in (0, 1), "rangeproof_info returned %d" % got)
+        del pb
+    finally:
+        try:
+            mm.close()
+        except BufferError:
+            pass
+    env.require(lib.illegal() == 0 and lib.errors() == 0, "callback fired for a huge declared length: " + lib.cbmsg())
+    return True, ["ep:" + ep, "delta=%d" % case["delta"]]
+
+
+from vf.core import Test  # noqa: E402
+
+TESTS = [
+    Test("huge_declared_length", _huge_case_strategy, _run_huge, quick=120, thorough=1200, max_workers=2,
+         cfgs={"quick": ["prod"], "thorough": ["prod"]},
+         must_cover=["ep:pubkey33", "ep:der", "ep:whitelist", "ep:surjection", "ep:halfagg", "delta=0"]),
+]
